@@ -301,17 +301,19 @@ def g_row(K, prop, fid, reps, tag="", inst=None, cparams=None):
     F = K.F
     root = F.root_of(fid) if inst is None else inst
     if root is None:
-        return [missing(prop, "G", K, fid)]
+        m0 = missing(prop, "G", K, fid)
+        return [Ob("%s:%s" % (m0.key, name), prop, "G", K.config, fid, VIOLATED, m0.detail) for name, _e, _x in reps] or [m0]
     loc = F.loc(F.instances[root]["d"])
     S = _sg(K)
     out = []
+    # one obligation per representative in every case, so that the enumerated count does not depend on the shape
     if F.instances[root]["d"] not in F.bodies:
-        return [Ob("%s:G:%s:%s%s" % (prop, K.config, fid, tag and ":" + tag), prop, "G", K.config, fid, UNDECIDED,
-                   "no MIR body for this function", loc)]
+        return [Ob("%s:G:%s:%s:%s" % (prop, K.config, fid, name), prop, "G", K.config, fid, UNDECIDED,
+                   "no MIR body for this function", loc) for name, _e, _x in reps]
     tree = S.summary(root)
-    if tree is None or tree[0] == "?":
-        return [Ob("%s:G:%s:%s%s" % (prop, K.config, fid, tag and ":" + tag), prop, "G", K.config, fid, UNDECIDED,
-                   "not summarisable (%s)" % (tree[1] if tree else "recursion",), loc)]
+    if tree is None or (tree[0] == "?" and not str(tree[1]).startswith("loop@")):
+        return [Ob("%s:G:%s:%s:%s" % (prop, K.config, fid, name), prop, "G", K.config, fid, UNDECIDED,
+                   "not summarisable (%s)" % (tree[1] if tree else "recursion",), loc) for name, _e, _x in reps]
     guards._DESCEND = (S, F)
     for name, env_fn, exp_fn in reps:
         key = "%s:G:%s:%s:%s" % (prop, K.config, fid, name)
